@@ -337,6 +337,15 @@ NestShapes == {
   Nest("compif",     "z = [1 for i in x", " if 1", "", "", "]\n"),
   Nest("dictcomp",   "z = ", "{1:", "1", " for i in x}", "\n"),
   Nest("lhs",        "", "[", "a", "]", " = c\n"),
+  \* parenthesised assignment targets (every statement form that has a target)
+  Nest("parenaug",    "a = 1\n", "(", "a", ")", " += 1\n"),
+  Nest("parenaugidx", "b = [1]\n", "(", "b[0]", ")", " -= 1\n"),
+  Nest("parenaugdot", "", "(", "x.f", ")", " |= 1\n"),
+  Nest("parenassign", "", "(", "a", ")", " = 1\n"),
+  Nest("parenunpack", "", "(", "a, b", ")", " = 1, 2\n"),
+  Nest("parenfor",    "for ", "(", "i", ")", " in x:\n pass\n"),
+  Nest("parencomp",   "z = [0 for ", "(", "i", ")", " in x]\n"),
+  Nest("parenidxtgt", "b = [1]\n", "(", "b", ")", "[0] = 2\n"),
   Nest("plus",       "z = 1", "+1", "", "", "\n"),
   Nest("minus",      "z = 1", "-1", "", "", "\n"),
   Nest("mul",        "z = 1", "*1", "", "", "\n"),
